@@ -31,6 +31,10 @@ structure LState where
   nodes : List (Nat × Int) := []
   free : List Nat := []
   nblocks : Nat := 0
+  /-- items per block of this container (`List::insert` / `PoolList::allocateFreeItem` allocate and fill blocks of
+      that many items; 4 in the sources the models were written against, read off the current headers by the
+      translator).  A node id is `bk * block + slot`. -/
+  bk : Nat := 4
 deriving Repr
 
 namespace LState
@@ -42,15 +46,17 @@ def size (s : LState) : Nat := s.nodes.length
 /-- `isEmpty()`: `endItem.prev == 0` -/
 def isEmpty (s : LState) : Bool := s.nodes.isEmpty
 
-/-- take an item from the free list, allocating a block of 4 when it is empty
+/-- take an item from the free list, allocating a block of `bk` items when it is empty
     (List.hpp:142-154 / PoolList.hpp:169-186): the block's items are pushed in address order,
-    so the last one is handed out first.  Returns (node id, state, #allocations). -/
+    so the last one (slot `bk - 1`) is handed out first and slots `bk - 2, …, 0` stay on the free list.
+    Returns (node id, state, #allocations). -/
 def allocNode (s : LState) : Nat × LState × Nat :=
   match s.free with
   | id :: rest => (id, { s with free := rest }, 0)
   | [] =>
     let b := s.nblocks
-    (4 * b + 3, { s with free := [4 * b + 2, 4 * b + 1, 4 * b], nblocks := b + 1 }, 1)
+    (s.bk * b + (s.bk - 1),
+     { s with free := (List.range (s.bk - 1)).reverse.map (s.bk * b + ·), nblocks := b + 1 }, 1)
 
 /-- link a fresh node holding `v` before position `pos` (no range check) -/
 def insertRaw (s : LState) (pos : Nat) (v : Int) : LState × Nat :=
@@ -152,7 +158,14 @@ structure AState where
   data : Option (List Int) := none
 deriving Repr
 
+/-- the rounding mask of `Array::reserve` (`_capacity |= mask`; 3 in the sources the model was written against,
+    derived from the current headers by the translator).  Everything below holds for every mask; the form
+    `2^j - 1` is only used by `reserve_policy`. -/
+class ArrCfg where
+  mask : Nat
+
 namespace AState
+variable [ArrCfg]
 
 def elems (s : AState) : List Int := s.data.getD []
 def size (s : AState) : Nat := s.elems.length
@@ -161,7 +174,7 @@ def size (s : AState) : Nat := s.elems.length
 def reserve (s : AState) (n : Nat) : AState × Nat × Nat :=
   if n > s.cap ∨ (s.data.isNone ∧ n > 0) then
     let cap1 := if n > s.cap then n else s.cap
-    let cap2 := cap1 ||| 3
+    let cap2 := cap1 ||| ArrCfg.mask
     match s.data with
     | some es => ({ cap := cap2, data := some es }, 1, 1)     -- move the elements, delete the old storage
     | none => ({ cap := cap2, data := some [] }, 1, 0)
@@ -276,6 +289,8 @@ structure State where
   a0 : AState := {}
   a1 : AState := {}
 
+variable [ArrCfg]
+
 inductive Op where
   -- List  (v = variable 0/1; the second container is always the other variable)
   | lappend (v : Nat) (x : Int) | lprepend (v : Nat) (x : Int)
@@ -350,7 +365,7 @@ def step (s : State) (op : Op) : Option (Res State) :=
   | .lcopy v =>
     -- the variable is destroyed (its blocks are deleted) and copy-constructed from the other one
     if ok v then
-      let (n, k) := LState.appendAll {} (s.getL (o v)).vals
+      let (n, k) := LState.appendAll { bk := (s.getL v).bk } (s.getL (o v)).vals
       some { st := s.setL v n, allocs := k, frees := (s.getL v).nblocks }
     else none
   | .lassign v =>
@@ -423,6 +438,10 @@ def step (s : State) (op : Op) : Option (Res State) :=
       some { st := s, ret := some (if (s.getA v).size ≠ (s.getA w).size then 0
                                   else if (s.getA v).elems = (s.getA w).elems then 1 else 0) }
     else none
+
+/-- the freshly constructed containers: `lk` / `pk` = items per block of List / PoolList -/
+def State.init (lk pk : Nat) : State :=
+  { l0 := { bk := lk }, l1 := { bk := lk }, p0 := { bk := pk }, p1 := { bk := pk } }
 
 /-- run a history; an operation whose precondition fails is skipped (it is not part of a
     well-formed history; `Props` quantifies over all op lists, so skipped ops are covered too) -/
